@@ -14,7 +14,7 @@ from .run import VERIF, REPO
 OUT = os.path.join(VERIF, 'out')
 EVID = os.path.join(VERIF, 'evidence')
 KNOWN = os.path.join(VERIF, 'known_findings.txt')
-NCPU = int(os.environ.get('VF_JOBS', '0')) or max(2, (os.cpu_count() or 4) - 2)
+NCPU = int(os.environ.get('VF_JOBS', '0')) or 2 * (os.cpu_count() or 4)
 
 
 def load_groups():
